@@ -123,9 +123,11 @@ type sniffed struct {
 }
 
 // run is one cluster execution.
+type emitter interface{ Emit(drv.Step) }
+
 type run struct {
 	t    *testing.T
-	tr   *drv.Tracer
+	tr   emitter
 	sid  int
 	n    int
 	duty core.Duty
@@ -380,7 +382,11 @@ func (r *run) logged(e map[string]any) {
 		if !ok {
 			from = -1
 		}
-		r.emit(drv.Step{"ev": "Reject", "from": from, "err": strings.TrimPrefix(strings.TrimPrefix(msg, rejectPrefix), ": ")})
+		text, kind := strings.TrimPrefix(strings.TrimPrefix(msg, rejectPrefix), ": "), "verdict"
+		if strings.Contains(text, "timeout enqueuing receive buffer") {
+			kind = "buffer"
+		}
+		r.emit(drv.Step{"ev": "Reject", "from": from, "err": text, "kind": kind})
 	}
 }
 
@@ -621,7 +627,7 @@ func hashSet(set core.UnsignedDataSet) ([32]byte, error) {
 	return cqbft.VerifHashProto(pb)
 }
 
-func runCluster(t *testing.T, tr *drv.Tracer, sid int, cfg map[string]any) {
+func runCluster(t *testing.T, tr emitter, sid int, cfg map[string]any) {
 	n, slot, dtype, timer := num(cfg, "n"), num(cfg, "slot"), drv.Str(cfg["dtype"]), drv.Str(cfg["timer"])
 	if timer == "inc" {
 		featureset.DisableForT(t, featureset.EagerDoubleLinear)
@@ -656,7 +662,7 @@ func runCluster(t *testing.T, tr *drv.Tracer, sid int, cfg map[string]any) {
 	horizon := time.Duration(num(cfg, "horizon")) * time.Millisecond
 	inst := (slot + int(duty.Type)) % n
 	tr.Emit(drv.Step{"ev": "Reset", "sid": sid, "n": n, "inst": inst, "byz": r.byz, "timer": timer, "timely": boolean(cfg["timely"]),
-		"slot": slot, "dtype": dtype, "family": drv.Str(cfg["family"]), "roundms": 1000})
+		"slot": slot, "dtype": dtype, "family": drv.Str(cfg["family"]), "roundms": num(cfg, "roundms"), "extrams": num(cfg, "extrams")})
 
 	ctx, cancelAll := context.WithCancel(context.Background())
 	bc := bclient{spec: map[string]any{"SECONDS_PER_SLOT": slotDur, "SLOTS_PER_EPOCH": uint64(32)}}
